@@ -29,14 +29,10 @@ Proof.
   - apply strip_err_extends.
 Qed.
 
-(* the `_` filler extends the typed word exactly when nothing was stripped; refuted otherwise *)
-Lemma filler_extends_unstripped w ds drs :
-  strip_err w = w -> has_prefix (value (filler (strip_err w) ds drs)) w = true.
-Proof. intro H. unfold filler. cbn [value]. rewrite H. apply has_prefix_app. Qed.
+(* the `_` filler extends the typed word (it is built from the word as typed) *)
+Lemma filler_extends w ds drs : has_prefix (value (filler w ds drs)) w = true.
+Proof. unfold filler. cbn [value]. apply has_prefix_app. Qed.
 
-Lemma filler_refuted :
-  exists w ds drs, has_prefix (value (filler (strip_err w) ds drs)) w = false.
-Proof. exists (B [120;69]), [], []. vm_compute. reflexivity. Qed.
 
 (* ---------- the numbering loop ---------- *)
 Lemma contains_value_app vs x s :
@@ -102,7 +98,7 @@ Theorem integrate_spec msgs vs w es ers ds drs vs1 :
     (forall a, In a added -> contains_value vs (value a) = false) /\
     NoDup (map value added) /\
     Permutation (integrate msgs vs w es ers ds drs)
-                (vs ++ added ++ match vs ++ added with [_] => [filler (strip_err w) ds drs] | _ => [] end).
+                (vs ++ added ++ match vs ++ added with [_] => [filler w ds drs] | _ => [] end).
 Proof.
   intros Hm H. destruct (integrate_loop_spec _ _ _ _ _ _ _ H) as [added [-> [Hd [He [Hc Hnd]]]]].
   exists added. repeat split; auto.
